@@ -210,14 +210,22 @@ void nsync_note_free (nsync_note n) {
 		next = nsync_dll_next_ (n->children, p);
 		nsync_mu_lock (&child->note_mu);
 		if (child->disconnecting == 0) {
-			n->children = nsync_dll_remove_ (n->children,
-							 &child->parent_child_link);
-			if (parent != NULL) {
-				child->parent = parent;
-				parent->children = nsync_dll_make_last_in_list_ (
-					parent->children, &child->parent_child_link);
+			if (parent != NULL && ATM_LOAD_ACQ (&parent->notified) != 0) {
+				/* The adopting parent has already been notified, and
+				   may be past its loop over its children: notify the
+				   child now instead of handing it over un-notified.
+				   This also removes it from n->children.  */
+				note_notify_child (child, n);
 			} else {
-				child->parent = NULL;
+				n->children = nsync_dll_remove_ (n->children,
+								 &child->parent_child_link);
+				if (parent != NULL) {
+					child->parent = parent;
+					parent->children = nsync_dll_make_last_in_list_ (
+						parent->children, &child->parent_child_link);
+				} else {
+					child->parent = NULL;
+				}
 			}
 		}
 		nsync_mu_unlock (&child->note_mu);
